@@ -46,6 +46,8 @@ CHECKS = {
          "All lengths within +-16 of each k x packet-capacity boundary (k=1..4) for six effective send-buffer sizes (one not 8-aligned) on bytes and typed channels are enumerated; seeded nested values (floats by bit pattern) and payloads up to 4 MiB (quick) / 64 MiB (thorough) are sent under varied buffer sizes, injected ENOBUFS (re-splitting) and receiver modes; oracle: re-serialised received value / payload is byte-identical, no packet exceeds the receiver's buffer. The value-shape dimension is ordinary seeded generation; the simulator contributes buffer-size configuration x split points x interleaving x blocking.", "5/C01"),
  "C11": ("exploration", "deterministic simulation: seeded API histories incl. failing operations (EMFILE injected at the seam, dead names, closed receivers, undecoded messages), repeated rounds; descriptor ledger + /proc/self/fd ground truth, mapping count, temp dir, FD_CLOEXEC audit after every operation, exec-child inheritance fault",
          "Seeded sequences of <=400 public-API operations over channels, shared memory, receiver sets, one-shot servers and routers, with EMFILE/ENFILE injected into descriptor-creating calls, run for several rounds in one process; after each round every handle is dropped in seeded order and the descriptor table (kernel view), shared mappings and temp dir must equal the baseline; no close may fail; after every operation every descriptor the library created or received must be close-on-exec. Sampling of histories, not proof.", "5/C11"),
+ "C18": ("exploration", "deterministic simulation on the AddressSanitizer build (nightly, std unsafe-precondition checks on): the message shapes of C01/C04/C05/C12/C13/C15/C16 plus platform-level zero/odd-length regions, with canary-filled receive buffers and ASan shadow-memory checks of every buffer handed to the kernel at the seam",
+         "The generators of C01, C04, C05, C12 (crashed transfers), C13 (ENOBUFS retries), C15 (0..300 attachments) and C16 (corrupt payloads) and platform-level region cases run under ASan with debug assertions; oracle: no sanitizer report, no precondition abort, no poisoned buffer handed to the kernel, received length/content equal to sent with canary-filled buffers, plus each generator's own oracle. A monitor riding on simulated runs: it samples, it does not prove.", "5/C18"),
 }
 PENDING = "check not built yet (work in progress in this session; will be claimed once its simulation scenario exists)"
 
